@@ -120,13 +120,16 @@ theorem walkPath_denied (s : Store) (v : View) (d : Ino) (c : Bytes) (rest : Lis
 
 /-- the loop standing in directory `d` in front of the components `c :: rest` agrees with the descent from `d`.
     The search permission of `d` is checked by the loop only when `d` is the root of the view; any other directory
-    was checked when it was entered. -/
-theorem loop_agrees {s : Store} {root : Ino} {v : View} (hwf : WF s root) (hroot : v.root = root) (m : SlMode) :
+    was checked when it was entered.
+    GENERAL form: `root` is the root of the whole tree (`WF s root`), the root of the view `v.root` is ANY node.
+    Of `WF` only `alloc` is used: when the walk comes back to `v.root` (impossible in a tree, but not needed), the
+    root check repeats the check made when the directory was entered. -/
+theorem loop_agrees_gen {s : Store} {root : Ino} {v : View} (hwf : WF s root) (m : SlMode) :
     ∀ (rest : List Bytes) (c : Bytes) (fuel : Nat) (d : Ino) (it : Iter) (pre : Bytes) (sl : Nat),
       (∀ x ∈ c :: rest, x ≠ [] ∧ ∀ y ∈ x, y ≠ SL) →
       it.path = pre ++ joinWith SL (c :: rest) → it.stop1 = pre.length → fuel ≥ rest.length + 1 →
       isDirAt s d = true →
-      (d ≠ root → ∀ md ch, s.get d = some (.dir md ch) → checkPerm md omLookup v = true) →
+      (d ≠ v.root → ∀ md ch, s.get d = some (.dir md ch) → checkPerm md omLookup v = true) →
       Agrees (walkPath s v d (c :: rest)) (searchLoop s v m v.root fuel d it sl none) := by
   intro rest
   induction rest with
@@ -148,9 +151,9 @@ theorem loop_agrees {s : Store} {root : Ino} {v : View} (hwf : WF s root) (hroot
         | some n =>
           cases n <;> simp [walkPath, hnext, hpart, hgd, hden, hch, hg, Agrees, hl]
     · have hden' : checkPerm md omLookup v = false := by simpa using hden
-      have hdr : d = root := Classical.byContradiction fun h => hden (hperm h md chd hgd)
+      have hdr : d = v.root := Classical.byContradiction fun h => hden (hperm h md chd hgd)
       subst hdr
-      simp [walkPath, hnext, hpart, hgd, hden', Agrees, hroot]
+      simp [walkPath, hnext, hpart, hgd, hden', Agrees]
   | cons c2 cs ih =>
     intro c fuel d it pre sl hall hp hst hf hdir hperm
     obtain ⟨fuel, rfl⟩ : ∃ k, fuel = k + 1 := ⟨fuel - 1, by simp at hf; omega⟩
@@ -186,13 +189,48 @@ theorem loop_agrees {s : Store} {root : Ino} {v : View} (hwf : WF s root) (hroot
           | file mf df nl id => simp [walkPath, hnext, hpart, hgd, hden, hch, hg, Agrees, hl]
           | symlink ms lk => simp [walkPath, hgd, hden, hch, hg, Agrees]
     · have hden' : checkPerm md omLookup v = false := by simpa using hden
-      have hdr : d = root := Classical.byContradiction fun h => hden (hperm h md chd hgd)
+      have hdr : d = v.root := Classical.byContradiction fun h => hden (hperm h md chd hgd)
       subst hdr
-      simp [walkPath, hnext, hpart, hgd, hden', Agrees, hroot]
+      simp [walkPath, hnext, hpart, hgd, hden', Agrees]
+
+/-- the form for a view of the whole tree (`v.root = root`) -/
+theorem loop_agrees {s : Store} {root : Ino} {v : View} (hwf : WF s root) (hroot : v.root = root) (m : SlMode) :
+    ∀ (rest : List Bytes) (c : Bytes) (fuel : Nat) (d : Ino) (it : Iter) (pre : Bytes) (sl : Nat),
+      (∀ x ∈ c :: rest, x ≠ [] ∧ ∀ y ∈ x, y ≠ SL) →
+      it.path = pre ++ joinWith SL (c :: rest) → it.stop1 = pre.length → fuel ≥ rest.length + 1 →
+      isDirAt s d = true →
+      (d ≠ root → ∀ md ch, s.get d = some (.dir md ch) → checkPerm md omLookup v = true) →
+      Agrees (walkPath s v d (c :: rest)) (searchLoop s v m v.root fuel d it sl none) := by
+  subst hroot
+  exact loop_agrees_gen hwf m
 
 theorem searchFuel_ge (s : Store) (p : Bytes) : searchFuel s p ≥ p.length + 1 := by
   unfold searchFuel slCountMax
   omega
+
+/-- GENERAL form (any view root): the walk of MemFS through a view rooted at ANY directory `v.root` of a well-formed
+    heap (`root` is the root of the whole tree) on a clean absolute path equals the component-wise descent from
+    `v.root`, whenever no symbolic link is met. The working directory of the view plays no role (absolute path). -/
+theorem searchNode_eq_walkPath_gen (s : Store) (root : Ino) (v : View) (hwf : WF s root)
+    (hvr : ∃ m ch, s.get v.root = some (.dir m ch)) (cs : List Bytes) (hall : ∀ c ∈ cs, c ≠ [] ∧ ∀ x ∈ c, x ≠ SL)
+    (hdots : ∀ c ∈ cs, c ≠ [DOT] ∧ c ≠ [DOT, DOT]) (m : SlMode) :
+    Agrees (walkPath s v v.root cs) (searchNode s v (SL :: joinWith SL cs) m) := by
+  unfold searchNode
+  simp only [abs_joined cs v.cwd hall hdots]
+  have hfuel := searchFuel_ge s (SL :: joinWith SL cs)
+  cases cs with
+  | nil =>
+    obtain ⟨k, hk⟩ : ∃ k, searchFuel s (SL :: joinWith SL []) = k + 1 := ⟨_, (Nat.sub_add_cancel (by omega)).symm⟩
+    rw [hk, searchLoop]
+    simp [joinWith, Iter.new, Iter.next, volumeNameLen, walkPath, Agrees]
+  | cons c cs =>
+    obtain ⟨mr, chr, hgr⟩ := hvr
+    refine loop_agrees_gen hwf m cs c (searchFuel s (SL :: joinWith SL (c :: cs))) v.root
+      (Iter.new .linux (SL :: joinWith SL (c :: cs))) [SL] 0 hall rfl rfl ?_ (isDirAt_of_get hgr)
+      (fun h => absurd rfl h)
+    have := length_joinWith_ge SL (c :: cs) (fun x hx => (hall x hx).1)
+    simp only [List.length_cons] at this hfuel ⊢
+    omega
 
 /-- The walk of MemFS on a clean absolute path equals the component-wise descent, whenever no symbolic link is met:
     same error class, same parent and child. (`m` is the follow mode: without links on the way it plays no role.) -/
@@ -210,22 +248,8 @@ theorem searchNode_eq_walkPath (s : Store) (root : Ino) (v : View) (hwf : WF s r
     | .viaLink => True := by
   intro p r
   show Agrees (walkPath s v root cs) (searchNode s v (SL :: joinWith SL cs) m)
-  unfold searchNode
-  simp only [abs_joined cs v.cwd hall hdots]
-  have hfuel := searchFuel_ge s (SL :: joinWith SL cs)
-  cases cs with
-  | nil =>
-    obtain ⟨k, hk⟩ : ∃ k, searchFuel s (SL :: joinWith SL []) = k + 1 := ⟨_, (Nat.sub_add_cancel (by omega)).symm⟩
-    rw [hk, searchLoop]
-    simp [joinWith, Iter.new, Iter.next, volumeNameLen, walkPath, Agrees, hroot]
-  | cons c cs =>
-    rw [hroot]
-    have h := loop_agrees hwf hroot m cs c (searchFuel s (SL :: joinWith SL (c :: cs))) root
-      (Iter.new .linux (SL :: joinWith SL (c :: cs))) [SL] 0 hall rfl rfl ?_ hwf.rootDir (fun h => absurd rfl h)
-    · rw [hroot] at h; exact h
-    · have := length_joinWith_ge SL (c :: cs) (fun x hx => (hall x hx).1)
-      simp only [List.length_cons] at this hfuel ⊢
-      omega
+  subst hroot
+  exact searchNode_eq_walkPath_gen s v.root v hwf (get_of_isDirAt hwf.rootDir) cs hall hdots m
 
 /-! ### the name the callers use -/
 
@@ -238,12 +262,12 @@ def PartAgrees (w : Resolved) (last : Bytes) (r : SR) : Prop :=
 
 /-- companion of `loop_agrees`: when the descent finds the entry or only misses the last component, the iterator
     the loop returns stands on the last component -/
-theorem loop_part {s : Store} {root : Ino} {v : View} (hwf : WF s root) (hroot : v.root = root) (m : SlMode) :
+theorem loop_part_gen {s : Store} {root : Ino} {v : View} (hwf : WF s root) (m : SlMode) :
     ∀ (rest : List Bytes) (c : Bytes) (fuel : Nat) (d : Ino) (it : Iter) (pre : Bytes) (sl : Nat),
       (∀ x ∈ c :: rest, x ≠ [] ∧ ∀ y ∈ x, y ≠ SL) →
       it.path = pre ++ joinWith SL (c :: rest) → it.stop1 = pre.length → fuel ≥ rest.length + 1 →
       isDirAt s d = true →
-      (d ≠ root → ∀ md ch, s.get d = some (.dir md ch) → checkPerm md omLookup v = true) →
+      (d ≠ v.root → ∀ md ch, s.get d = some (.dir md ch) → checkPerm md omLookup v = true) →
       PartAgrees (walkPath s v d (c :: rest)) ((c :: rest).getLast (by simp))
         (searchLoop s v m v.root fuel d it sl none) := by
   intro rest
@@ -266,9 +290,9 @@ theorem loop_part {s : Store} {root : Ino} {v : View} (hwf : WF s root) (hroot :
         | some n =>
           cases n <;> simp [walkPath, hnext, hpart, hgd, hden, hch, hg, PartAgrees, partOf, hl]
     · have hden' : checkPerm md omLookup v = false := by simpa using hden
-      have hdr : d = root := Classical.byContradiction fun h => hden (hperm h md chd hgd)
+      have hdr : d = v.root := Classical.byContradiction fun h => hden (hperm h md chd hgd)
       subst hdr
-      simp [walkPath, hnext, hpart, hgd, hden', PartAgrees, hroot]
+      simp [walkPath, hnext, hpart, hgd, hden', PartAgrees]
   | cons c2 cs ih =>
     intro c fuel d it pre sl hall hp hst hf hdir hperm
     obtain ⟨fuel, rfl⟩ : ∃ k, fuel = k + 1 := ⟨fuel - 1, by simp at hf; omega⟩
@@ -304,9 +328,40 @@ theorem loop_part {s : Store} {root : Ino} {v : View} (hwf : WF s root) (hroot :
           | file mf df nl id => simp [walkPath, hgd, hden, hch, hg, PartAgrees]
           | symlink ms lk => simp [walkPath, hgd, hden, hch, hg, PartAgrees]
     · have hden' : checkPerm md omLookup v = false := by simpa using hden
-      have hdr : d = root := Classical.byContradiction fun h => hden (hperm h md chd hgd)
+      have hdr : d = v.root := Classical.byContradiction fun h => hden (hperm h md chd hgd)
       subst hdr
       simp [walkPath, hgd, hden', PartAgrees]
+
+/-- the form for a view of the whole tree (`v.root = root`) -/
+theorem loop_part {s : Store} {root : Ino} {v : View} (hwf : WF s root) (hroot : v.root = root) (m : SlMode) :
+    ∀ (rest : List Bytes) (c : Bytes) (fuel : Nat) (d : Ino) (it : Iter) (pre : Bytes) (sl : Nat),
+      (∀ x ∈ c :: rest, x ≠ [] ∧ ∀ y ∈ x, y ≠ SL) →
+      it.path = pre ++ joinWith SL (c :: rest) → it.stop1 = pre.length → fuel ≥ rest.length + 1 →
+      isDirAt s d = true →
+      (d ≠ root → ∀ md ch, s.get d = some (.dir md ch) → checkPerm md omLookup v = true) →
+      PartAgrees (walkPath s v d (c :: rest)) ((c :: rest).getLast (by simp))
+        (searchLoop s v m v.root fuel d it sl none) := by
+  subst hroot
+  exact loop_part_gen hwf m
+
+/-- GENERAL form (any view root) of `searchNode_part` -/
+theorem searchNode_part_gen (s : Store) (root : Ino) (v : View) (hwf : WF s root)
+    (hvr : ∃ m ch, s.get v.root = some (.dir m ch)) (cs : List Bytes) (hne : cs ≠ [])
+    (hall : ∀ c ∈ cs, c ≠ [] ∧ ∀ x ∈ c, x ≠ SL) (hdots : ∀ c ∈ cs, c ≠ [DOT] ∧ c ≠ [DOT, DOT]) (m : SlMode) :
+    PartAgrees (walkPath s v v.root cs) (cs.getLast hne) (searchNode s v (SL :: joinWith SL cs) m) := by
+  unfold searchNode
+  simp only [abs_joined cs v.cwd hall hdots]
+  have hfuel := searchFuel_ge s (SL :: joinWith SL cs)
+  cases cs with
+  | nil => exact absurd rfl hne
+  | cons c cs =>
+    obtain ⟨mr, chr, hgr⟩ := hvr
+    refine loop_part_gen hwf m cs c (searchFuel s (SL :: joinWith SL (c :: cs))) v.root
+      (Iter.new .linux (SL :: joinWith SL (c :: cs))) [SL] 0 hall rfl rfl ?_ (isDirAt_of_get hgr)
+      (fun h => absurd rfl h)
+    have := length_joinWith_ge SL (c :: cs) (fun x hx => (hall x hx).1)
+    simp only [List.length_cons] at this hfuel ⊢
+    omega
 
 /-- The NAME under which the callers of `searchNode` act (`partOf r.pi`, Go: `pi.Part()`) is the last component of
     the path, whenever the descent finds the entry or misses only the last component. -/
@@ -314,19 +369,8 @@ theorem searchNode_part (s : Store) (root : Ino) (v : View) (hwf : WF s root) (h
     (hroot : v.root = root) (cs : List Bytes) (hne : cs ≠ []) (hall : ∀ c ∈ cs, c ≠ [] ∧ ∀ x ∈ c, x ≠ SL)
     (hdots : ∀ c ∈ cs, c ≠ [DOT] ∧ c ≠ [DOT, DOT]) (m : SlMode) :
     PartAgrees (walkPath s v root cs) (cs.getLast hne) (searchNode s v (SL :: joinWith SL cs) m) := by
-  unfold searchNode
-  simp only [abs_joined cs v.cwd hall hdots]
-  have hfuel := searchFuel_ge s (SL :: joinWith SL cs)
-  cases cs with
-  | nil => exact absurd rfl hne
-  | cons c cs =>
-    rw [hroot]
-    have h := loop_part hwf hroot m cs c (searchFuel s (SL :: joinWith SL (c :: cs))) root
-      (Iter.new .linux (SL :: joinWith SL (c :: cs))) [SL] 0 hall rfl rfl ?_ hwf.rootDir (fun h => absurd rfl h)
-    · rw [hroot] at h; exact h
-    · have := length_joinWith_ge SL (c :: cs) (fun x hx => (hall x hx).1)
-      simp only [List.length_cons] at this hfuel ⊢
-      omega
+  subst hroot
+  exact searchNode_part_gen s v.root v hwf (get_of_isDirAt hwf.rootDir) cs hne hall hdots m
 
 /-- the walk of "/" : the root itself, under the empty name (`pi.Part()` after the only, failing, `Next`) -/
 theorem searchNode_root (s : Store) (v : View) (m : SlMode) :
